@@ -12,6 +12,13 @@
    public key it is about to record, when the file already carries an
    integrity block, or when the trailing length field exceeds the file size."
 
+   Since the repair of SignAndAddNewSignature (it refuses attributes whose
+   "ed25519PublicKey" entry is not the key the signature is verified with, and
+   VerifyEd25519Signature refuses a key that is not 32 bytes) "the key stored
+   in its own attributes" is enforced by the signer, not assumed of the caller:
+   stack_invariant_self and attempts_invariant below have no premise on the
+   attributes.
+
    Statements only; proofs live in Proofs/IntegrityBlock{Base,Cbor,Sign,Id,Spec}.v.
    Model = Model/IntegrityBlock.v (integrityblock.go, integrityblock-signer.go,
    web-bundle-id.go, cmd/sign-bundle/integrityblock.go).  Spec side =
@@ -194,16 +201,131 @@ Theorem sign_and_add_checked : forall (strat_sign : bytes -> R bytes)
 Proof. exact IntegrityBlockSign.sign_and_add_checked. Qed.
 Print Assumptions sign_and_add_checked.
 
+(* attr_pk a = the value the lookup of "ed25519PublicKey" finds in a (first
+   entry of that name; [] when there is none) *)
 Theorem sign_and_add_ok_iff : forall (strat_sign : bytes -> R bytes)
     (ed_ok : bytes -> bytes -> bytes -> bool) (hash : bytes) (b : iblock) (pk : bytes) (a : attrs)
     (b' : iblock),
   sign_and_add strat_sign ed_ok hash b pk a = Ok b' <->
+  attr_pk a = pk /\ lenN pk = 32 /\
   exists blk dtbs sg,
     block_cbor b = Ok blk /\ det_check blk = Accept /\
     data_to_be_signed hash blk a = Ok dtbs /\
     strat_sign dtbs = Ok sg /\ ed_ok pk dtbs sg = true /\ b' = push b a sg.
 Proof. exact IntegrityBlockSign.sign_and_add_ok_iff. Qed.
 Print Assumptions sign_and_add_ok_iff.
+
+(* a successful call was given attributes in which the lookup of
+   "ed25519PublicKey" finds an entry, whose value is the 32-byte key the
+   signature has been verified with *)
+Theorem sign_and_add_ok_attr : forall (strat_sign : bytes -> R bytes)
+    (ed_ok : bytes -> bytes -> bytes -> bool) (hash : bytes) (b : iblock) (pk : bytes) (a : attrs)
+    (b' : iblock),
+  sign_and_add strat_sign ed_ok hash b pk a = Ok b' ->
+  find (fun kv => bytes_eqb (fst kv) pk_attr_name) a = Some (pk_attr_name, pk) /\ lenN pk = 32.
+Proof. exact IntegrityBlockSign.sign_and_add_ok_attr. Qed.
+Print Assumptions sign_and_add_ok_attr.
+
+(* the attributes are an association list; a name occurring twice (impossible
+   in the Go map) is refused by the encoder, so on success the entry is the
+   only one of that name - no NoDup premise anywhere *)
+Theorem sign_and_add_ok_attr_unique : forall (strat_sign : bytes -> R bytes)
+    (ed_ok : bytes -> bytes -> bytes -> bool) (hash : bytes) (b : iblock) (pk : bytes) (a : attrs)
+    (b' : iblock),
+  sign_and_add strat_sign ed_ok hash b pk a = Ok b' ->
+  In (pk_attr_name, pk) a /\ (forall v, In (pk_attr_name, v) a -> v = pk) /\ lenN pk = 32.
+Proof. exact IntegrityBlockSign.sign_and_add_ok_attr_unique. Qed.
+Print Assumptions sign_and_add_ok_attr_unique.
+
+Theorem sign_and_add_ok_nodup : forall (strat_sign : bytes -> R bytes)
+    (ed_ok : bytes -> bytes -> bytes -> bool) (hash : bytes) (b : iblock) (pk : bytes) (a : attrs)
+    (b' : iblock),
+  sign_and_add strat_sign ed_ok hash b pk a = Ok b' -> NoDup (map fst a).
+Proof. exact IntegrityBlockSign.sign_and_add_ok_nodup. Qed.
+Print Assumptions sign_and_add_ok_nodup.
+
+(* ---- refusals.  "Adds nothing": sign_and_add is a pure function, its argument
+   b is a value and cannot change; the only block carrying the new signature is
+   the one returned inside Ok, and in all of these nothing is returned.  (In Go
+   the append to SignatureStack is the last statement, after every error
+   return; attempts_invariant below states it for a signer that is used again
+   after a failing call.) *)
+
+(* the attributes carry another key, or none: error (the first test, before
+   anything is serialized or signed) *)
+Theorem sign_and_add_wrong_attr_err : forall (strat_sign : bytes -> R bytes)
+    (ed_ok : bytes -> bytes -> bytes -> bool) (hash : bytes) (b : iblock) (pk : bytes) (a : attrs),
+  attr_pk a <> pk -> sign_and_add strat_sign ed_ok hash b pk a = Err.
+Proof. exact IntegrityBlockSign.sign_and_add_wrong_attr_err. Qed.
+Print Assumptions sign_and_add_wrong_attr_err.
+
+(* the same by list membership, for any association list: some entry of that
+   name with another value / no entry (name, pk) at all *)
+Theorem sign_and_add_other_key_in_err : forall (strat_sign : bytes -> R bytes)
+    (ed_ok : bytes -> bytes -> bytes -> bool) (hash : bytes) (b : iblock) (pk v : bytes) (a : attrs),
+  In (pk_attr_name, v) a -> v <> pk -> sign_and_add strat_sign ed_ok hash b pk a = Err.
+Proof. exact IntegrityBlockSign.sign_and_add_other_key_in_err. Qed.
+Print Assumptions sign_and_add_other_key_in_err.
+
+Theorem sign_and_add_not_recorded_err : forall (strat_sign : bytes -> R bytes)
+    (ed_ok : bytes -> bytes -> bytes -> bool) (hash : bytes) (b : iblock) (pk : bytes) (a : attrs),
+  ~ In (pk_attr_name, pk) a -> pk <> [] -> sign_and_add strat_sign ed_ok hash b pk a = Err.
+Proof. exact IntegrityBlockSign.sign_and_add_not_recorded_err. Qed.
+Print Assumptions sign_and_add_not_recorded_err.
+
+Theorem sign_and_add_no_key_err : forall (strat_sign : bytes -> R bytes)
+    (ed_ok : bytes -> bytes -> bytes -> bool) (hash : bytes) (b : iblock) (pk : bytes) (a : attrs),
+  (forall v, ~ In (pk_attr_name, v) a) -> pk <> [] -> sign_and_add strat_sign ed_ok hash b pk a = Err.
+Proof. exact IntegrityBlockSign.sign_and_add_no_key_err. Qed.
+Print Assumptions sign_and_add_no_key_err.
+
+(* pk <> [] is needed for "= Err": with no entry and the empty key the
+   attribute test passes (bytes.Equal(nil, []byte{})), the strategy is called,
+   and only then the key-length test refuses; a panicking strategy panics *)
+Theorem sign_and_add_no_key_needs_nonempty :
+  exists (strat : bytes -> R bytes) (ed_ok : bytes -> bytes -> bytes -> bool) (hash : bytes) (a : attrs),
+    (forall v, ~ In (pk_attr_name, v) a) /\
+    sign_and_add strat ed_ok hash empty_block [] a = Panic.
+Proof. exact IntegrityBlockSign.sign_and_add_no_key_needs_nonempty. Qed.
+Print Assumptions sign_and_add_no_key_needs_nonempty.
+
+(* a repeated name never gets through, whichever entry comes first *)
+Theorem sign_and_add_dup_name_err : forall (strat_sign : bytes -> R bytes)
+    (ed_ok : bytes -> bytes -> bytes -> bool) (hash : bytes) (b : iblock) (pk : bytes) (a : attrs),
+  ~ NoDup (map fst a) -> sign_and_add strat_sign ed_ok hash b pk a = Err.
+Proof. exact IntegrityBlockSign.sign_and_add_dup_name_err. Qed.
+Print Assumptions sign_and_add_dup_name_err.
+
+(* a key that is not 32 bytes long is never recorded, whatever ed_ok answers;
+   the test sits in VerifyEd25519Signature, after the strategy has signed, so
+   the result is the error provided the strategy does not itself panic *)
+Theorem sign_and_add_bad_key_length_never_ok : forall (strat_sign : bytes -> R bytes)
+    (ed_ok : bytes -> bytes -> bytes -> bool) (hash : bytes) (b : iblock) (pk : bytes) (a : attrs),
+  lenN pk <> 32 -> forall b', sign_and_add strat_sign ed_ok hash b pk a <> Ok b'.
+Proof. exact IntegrityBlockSign.sign_and_add_bad_key_length_never_ok. Qed.
+Print Assumptions sign_and_add_bad_key_length_never_ok.
+
+Theorem sign_and_add_bad_key_length_err : forall (strat_sign : bytes -> R bytes)
+    (ed_ok : bytes -> bytes -> bytes -> bool) (hash : bytes) (b : iblock) (pk : bytes) (a : attrs),
+  (forall m, strat_sign m <> Panic /\ strat_sign m <> Fuel) ->
+  lenN pk <> 32 -> sign_and_add strat_sign ed_ok hash b pk a = Err.
+Proof. exact IntegrityBlockSign.sign_and_add_bad_key_length_err. Qed.
+Print Assumptions sign_and_add_bad_key_length_err.
+
+Theorem sign_and_add_bad_key_length : forall (strat_sign : bytes -> R bytes)
+    (ed_ok : bytes -> bytes -> bytes -> bool) (hash : bytes) (b : iblock) (pk : bytes) (a : attrs)
+    (blk dtbs sg : bytes),
+  block_cbor b = Ok blk -> data_to_be_signed hash blk a = Ok dtbs ->
+  strat_sign dtbs = Ok sg -> lenN pk <> 32 ->
+  sign_and_add strat_sign ed_ok hash b pk a = Err.
+Proof. exact IntegrityBlockSign.sign_and_add_bad_key_length. Qed.
+Print Assumptions sign_and_add_bad_key_length.
+
+Theorem sign_and_add_bad_key_length_needs_no_panic :
+  exists (strat : bytes -> R bytes) (ed_ok : bytes -> bytes -> bytes -> bool) (hash pk : bytes),
+    lenN pk <> 32 /\ sign_and_add strat ed_ok hash empty_block pk [(pk_attr_name, pk)] = Panic.
+Proof. exact IntegrityBlockSign.sign_and_add_bad_key_length_needs_no_panic. Qed.
+Print Assumptions sign_and_add_bad_key_length_needs_no_panic.
 
 (* The signature obtained does not verify under the key about to be recorded:
    error.  "Adds nothing": sign_and_add is a pure function, its argument b is
@@ -226,6 +348,15 @@ Theorem sign_and_add_mismatch_never_ok : forall (strat_sign : bytes -> R bytes)
   forall b', sign_and_add strat_sign ed_ok hash b pk a <> Ok b'.
 Proof. exact IntegrityBlockSign.sign_and_add_mismatch_never_ok. Qed.
 Print Assumptions sign_and_add_mismatch_never_ok.
+
+(* nothing else: an error or a new block, unless the strategy panics *)
+Theorem sign_and_add_ok_or_err : forall (strat_sign : bytes -> R bytes)
+    (ed_ok : bytes -> bytes -> bytes -> bool) (hash : bytes) (b : iblock) (pk : bytes) (a : attrs),
+  (forall m, strat_sign m <> Panic /\ strat_sign m <> Fuel) ->
+  sign_and_add strat_sign ed_ok hash b pk a = Err \/
+  exists b', sign_and_add strat_sign ed_ok hash b pk a = Ok b'.
+Proof. exact IntegrityBlockSign.sign_and_add_ok_or_err. Qed.
+Print Assumptions sign_and_add_ok_or_err.
 
 (* ==== any sequence of signing operations =================================================== *)
 (* Valid_stack ed_ok hash st pks (Proofs/IntegrityBlockSign.v):
@@ -256,21 +387,110 @@ Theorem stack_invariant_from : forall (strat_sign : bytes -> R bytes)
 Proof. intros s e h ops. exact (IntegrityBlockSign.sign_all_invariant s e h ops). Qed.
 Print Assumptions stack_invariant_from.
 
-(* when every operation records its key under "ed25519PublicKey", each
-   signature verifies under the key stored in its own attributes *)
+(* Valid_self ed_ok hash st: there are keys pks with Valid_stack ed_ok hash st pks
+   and, position by position, recorded_key (is_attrs s) pk, i.e.
+     find (name = "ed25519PublicKey") (is_attrs s) = Some ("ed25519PublicKey", pk):
+   each signature verifies under the key found in ITS OWN attributes.
+   No premise on the operations: sign_and_add enforces it. *)
 Theorem stack_invariant_self : forall (strat_sign : bytes -> R bytes)
     (ed_ok : bytes -> bytes -> bytes -> bool) (hash : bytes) (ops : list (bytes * attrs)) (b' : iblock),
-  Forall (fun op => In (pk_attr_name, fst op) (snd op)) ops ->
   sign_all strat_sign ed_ok hash empty_block ops = Ok b' ->
-  Valid_self ed_ok hash (ib_stack b') /\ lenN (ib_stack b') = lenN ops.
+  Valid_self ed_ok hash (ib_stack b') /\ lenN (ib_stack b') = lenN ops /\
+  Forall (fun op => recorded_key (snd op) (fst op) /\ lenN (fst op) = 32) ops.
 Proof. exact IntegrityBlockSign.stack_invariant_self. Qed.
 Print Assumptions stack_invariant_self.
+
+Theorem stack_invariant_self_from : forall (strat_sign : bytes -> R bytes)
+    (ed_ok : bytes -> bytes -> bytes -> bool) (hash : bytes) (ops : list (bytes * attrs))
+    (b b' : iblock),
+  Valid_self ed_ok hash (ib_stack b) ->
+  sign_all strat_sign ed_ok hash b ops = Ok b' ->
+  Valid_self ed_ok hash (ib_stack b') /\
+  exists newer, ib_stack b' = newer ++ ib_stack b /\ map is_attrs newer = rev (map snd ops).
+Proof. exact IntegrityBlockSign.stack_invariant_self_from. Qed.
+Print Assumptions stack_invariant_self_from.
+
+(* the invariant read with list membership and with the keys computed from
+   the stack; both equivalent, neither needs NoDup of the names (Valid_stack
+   has encoded every attributes map, which refuses repeated names) *)
+Theorem Valid_self_iff_in : forall (ed_ok : bytes -> bytes -> bytes -> bool) (hash : bytes)
+    (st : list isig),
+  Valid_self ed_ok hash st <->
+  exists pks, Valid_stack ed_ok hash st pks /\
+              Forall2 (fun s pk => In (pk_attr_name, pk) (is_attrs s)) st pks.
+Proof. exact IntegrityBlockSign.Valid_self_iff_in. Qed.
+Print Assumptions Valid_self_iff_in.
+
+Theorem Valid_self_keys : forall (ed_ok : bytes -> bytes -> bytes -> bool) (hash : bytes)
+    (st : list isig),
+  Valid_self ed_ok hash st <->
+  Valid_stack ed_ok hash st (map (fun s => attr_pk (is_attrs s)) st) /\
+  Forall (fun s => recorded_key (is_attrs s) (attr_pk (is_attrs s))) st.
+Proof. exact IntegrityBlockSign.Valid_self_keys. Qed.
+Print Assumptions Valid_self_keys.
 
 (* ... and that key is unambiguous *)
 Theorem attr_value_unique : forall (a : attrs) (ab k v v' : bytes),
   attrs_cbor a = Ok ab -> In (k, v) a -> In (k, v') a -> v = v'.
 Proof. exact IntegrityBlockSign.attr_value_unique. Qed.
 Print Assumptions attr_value_unique.
+
+(* ==== any history of calls on one signer, failing calls included ========================== *)
+(* attempt = (strategy held by the signer at that call, key, attributes);
+   attempts hash b ts = the signer's block after the calls ts in order, where a
+   call that does not return Ok leaves the block as it is;
+   accepted hash b ts = the calls that returned Ok, oldest first;
+   key32 s = the key found in s's attributes is 32 bytes long.
+   From any block satisfying the invariant - the empty one does - and for ANY
+   list of calls: every listed signature verifies under the key in its own
+   attributes over the data-to-be-signed of the block as it stood before, the
+   earlier signatures are untouched below one new signature per successful
+   call, newest first. *)
+Theorem attempts_invariant : forall (ed_ok : bytes -> bytes -> bytes -> bool) (hash : bytes)
+    (ts : list attempt) (b : iblock),
+  Valid_self ed_ok hash (ib_stack b) ->
+  Valid_self ed_ok hash (ib_stack (attempts ed_ok hash b ts)) /\
+  exists newer,
+    ib_stack (attempts ed_ok hash b ts) = newer ++ ib_stack b /\
+    map is_attrs newer = rev (map at_attrs (accepted ed_ok hash b ts)) /\
+    Forall key32 newer /\
+    Forall (fun t => recorded_key (at_attrs t) (at_pk t) /\ lenN (at_pk t) = 32)
+           (accepted ed_ok hash b ts).
+Proof. exact IntegrityBlockSign.attempts_invariant. Qed.
+Print Assumptions attempts_invariant.
+
+Theorem attempts_from_empty : forall (ed_ok : bytes -> bytes -> bytes -> bool) (hash : bytes)
+    (ts : list attempt),
+  Valid_self ed_ok hash (ib_stack (attempts ed_ok hash empty_block ts)) /\
+  map is_attrs (ib_stack (attempts ed_ok hash empty_block ts)) =
+    rev (map at_attrs (accepted ed_ok hash empty_block ts)) /\
+  Forall key32 (ib_stack (attempts ed_ok hash empty_block ts)).
+Proof. exact IntegrityBlockSign.attempts_from_empty. Qed.
+Print Assumptions attempts_from_empty.
+
+(* a call that does not return Ok leaves the signer's block unchanged *)
+Theorem attempt_step_fail : forall (ed_ok : bytes -> bytes -> bytes -> bool) (hash : bytes)
+    (b : iblock) (t : attempt),
+  (forall b', try_sign ed_ok hash b t <> Ok b') -> attempt_step ed_ok hash b t = b.
+Proof. exact IntegrityBlockSign.attempt_step_fail. Qed.
+Print Assumptions attempt_step_fail.
+
+(* the failing calls could as well not have been made; a history without
+   failures under one strategy is sign_all *)
+Theorem attempts_accepted : forall (ed_ok : bytes -> bytes -> bytes -> bool) (hash : bytes)
+    (ts : list attempt) (b : iblock),
+  attempts ed_ok hash b (accepted ed_ok hash b ts) = attempts ed_ok hash b ts /\
+  accepted ed_ok hash b (accepted ed_ok hash b ts) = accepted ed_ok hash b ts.
+Proof. exact IntegrityBlockSign.attempts_accepted. Qed.
+Print Assumptions attempts_accepted.
+
+Theorem sign_all_attempts : forall (ed_ok : bytes -> bytes -> bytes -> bool)
+    (strat : bytes -> R bytes) (hash : bytes) (ops : list (bytes * attrs)) (b b' : iblock),
+  sign_all strat ed_ok hash b ops = Ok b' ->
+  attempts ed_ok hash b (map (with_strat strat) ops) = b' /\
+  accepted ed_ok hash b (map (with_strat strat) ops) = map (with_strat strat) ops.
+Proof. exact IntegrityBlockSign.sign_all_attempts. Qed.
+Print Assumptions sign_all_attempts.
 
 (* ==== SignWithIntegrityBlock ================================================================ *)
 Theorem sign_file_layout : forall (H512 : bytes -> bytes) (strat_sign : bytes -> R bytes)
@@ -283,14 +503,15 @@ Theorem sign_file_layout : forall (H512 : bytes -> bytes) (strat_sign : bytes ->
     block_cbor empty_block = Ok empty_block_bytes /\
     data_to_be_signed (H512 file) empty_block_bytes (pk_attrs pk) = Ok dtbs /\
     strat_sign dtbs = Ok sg /\ ed_ok pk dtbs sg = true /\
-    Valid_self ed_ok (H512 file) (ib_stack (one_sig_block pk sg)).
+    Valid_self ed_ok (H512 file) (ib_stack (one_sig_block pk sg)) /\
+    recorded_key (pk_attrs pk) pk /\ lenN pk = 32.
 Proof. exact IntegrityBlockSign.sign_file_layout. Qed.
 Print Assumptions sign_file_layout.
 
 Theorem sign_file_ok_iff : forall (H512 : bytes -> bytes) (strat_sign : bytes -> R bytes)
     (ed_ok : bytes -> bytes -> bytes -> bool) (file pk out : bytes),
   sign_file H512 strat_sign ed_ok file pk = Ok out <->
-  obtain file = Ok empty_block /\
+  obtain file = Ok empty_block /\ lenN pk = 32 /\
   exists sg, strat_sign (sign_file_dtbs H512 file pk) = Ok sg /\
              ed_ok pk (sign_file_dtbs H512 file pk) sg = true /\
              det_check (one_sig_bytes pk sg) = Accept /\
@@ -306,10 +527,15 @@ Theorem sign_file_err_cases : forall (H512 : bytes -> bytes) (strat_sign : bytes
               ed_ok pk (sign_file_dtbs H512 file pk) sg = false ->
               sign_file H512 strat_sign ed_ok file pk = Err) /\
   (forall pre trail, wfb file -> lenN file < two63 -> file = pre ++ trail -> lenN trail = 8 ->
-                     unbe trail <> lenN file -> sign_file H512 strat_sign ed_ok file pk = Err).
+                     unbe trail <> lenN file -> sign_file H512 strat_sign ed_ok file pk = Err) /\
+  (lenN pk <> 32 -> forall out, sign_file H512 strat_sign ed_ok file pk <> Ok out) /\
+  ((forall m, strat_sign m <> Panic /\ strat_sign m <> Fuel) -> lenN pk <> 32 ->
+   sign_file H512 strat_sign ed_ok file pk = Err).
 Proof.
   intros H s e file pk. split; [apply sign_file_err_obtain|]. split; [apply sign_file_err_strategy|].
-  split; [intros sg; apply sign_file_err_verify|]. intros pre trail. apply sign_file_refusals.
+  split; [intros sg; apply sign_file_err_verify|].
+  split; [intros pre trail; apply sign_file_refusals|].
+  split; [apply sign_file_bad_key_length_never_ok|apply sign_file_err_key_length].
 Qed.
 Print Assumptions sign_file_err_cases.
 
@@ -317,7 +543,7 @@ Print Assumptions sign_file_err_cases.
 Theorem sign_file_complete : forall (H512 : bytes -> bytes) (strat_sign : bytes -> R bytes)
     (ed_ok : bytes -> bytes -> bytes -> bool) (file pk sg : bytes),
   obtain file = Ok empty_block ->
-  wfb pk -> lenN pk < two64 -> wfb sg -> lenN sg < two64 ->
+  wfb pk -> lenN pk = 32 -> wfb sg -> lenN sg < two64 ->
   strat_sign (sign_file_dtbs H512 file pk) = Ok sg ->
   ed_ok pk (sign_file_dtbs H512 file pk) sg = true ->
   sign_file H512 strat_sign ed_ok file pk = Ok (one_sig_bytes pk sg ++ file).
@@ -408,6 +634,21 @@ Example ex_sign_file_mismatch :
   sign_file sha512 (fun _ => Err) toy_ok ex_file toy_pk = Err.
 Proof. vm_compute. repeat split. Qed.
 
+(* a 31-byte key: the toy oracle would accept the signature (Go's
+   ed25519.Verify would panic); refused on the length *)
+Definition toy_pk31 : bytes := map N.of_nat (seq 1 31).
+Example ex_sign_file_bad_key_length :
+  sign_file sha512 (toy_sign toy_pk31) toy_ok ex_file toy_pk31 = Err /\
+  lenN toy_pk31 <> 32 /\ lenN toy_pk = 32 /\
+  (forall pk m, toy_sign pk m <> Panic /\ toy_sign pk m <> Fuel) /\
+  toy_ok toy_pk31 (sign_file_dtbs sha512 ex_file toy_pk31)
+         (sha512 (toy_pk31 ++ sign_file_dtbs sha512 ex_file toy_pk31)) = true.
+Proof.
+  split; [vm_compute; reflexivity|]. split; [vm_compute; discriminate|].
+  split; [vm_compute; reflexivity|]. split; [intros pk m; split; discriminate|].
+  vm_compute. reflexivity.
+Qed.
+
 (* three signing operations (extra attributes, different attribute orders)
    from the empty block: all accepted, newest first *)
 Definition ex_ops : list (bytes * attrs) :=
@@ -430,8 +671,108 @@ Example ex_three_signatures_mismatch :
     [(toy_pk, [(pk_attr_name, toy_pk)]); (toy_pk2, [(pk_attr_name, toy_pk2)])] = Err.
 Proof. vm_compute. reflexivity. Qed.
 
-Example ex_ops_self : Forall (fun op => In (pk_attr_name, fst op) (snd op)) ex_ops.
-Proof. unfold ex_ops. repeat (apply Forall_cons || apply Forall_nil); cbn [In fst snd]; auto. Qed.
+(* what stack_invariant_self concludes about the operations, seen directly *)
+Example ex_ops_self :
+  Forall (fun op => recorded_key (snd op) (fst op) /\ lenN (fst op) = 32) ex_ops.
+Proof.
+  unfold ex_ops. repeat (apply Forall_cons || apply Forall_nil); cbn [fst snd]; split;
+    vm_compute; reflexivity.
+Qed.
+
+(* ---- a history with failing calls interleaved ---- *)
+Definition ex_a1 : attrs := [(pk_attr_name, toy_pk)].
+Definition ex_a2 : attrs := [(s2b "note", [1; 2; 3]); (pk_attr_name, toy_pk)].
+Definition ex_a3 : attrs := [(pk_attr_name, toy_pk2); (s2b "a", [])].
+Definition ex_good1 : attempt := {| at_strat := toy_sign toy_pk; at_pk := toy_pk; at_attrs := ex_a1 |}.
+Definition ex_good2 : attempt := {| at_strat := toy_sign toy_pk; at_pk := toy_pk; at_attrs := ex_a2 |}.
+Definition ex_good3 : attempt := {| at_strat := toy_sign toy_pk2; at_pk := toy_pk2; at_attrs := ex_a3 |}.
+(* the signature verifies under toy_pk, the attributes name toy_pk2 *)
+Definition ex_wrong_attr : attempt :=
+  {| at_strat := toy_sign toy_pk; at_pk := toy_pk; at_attrs := [(pk_attr_name, toy_pk2)] |}.
+(* attributes and key agree, the toy oracle accepts, the key has 31 bytes *)
+Definition ex_bad_length : attempt :=
+  {| at_strat := toy_sign toy_pk31; at_pk := toy_pk31; at_attrs := [(pk_attr_name, toy_pk31)] |}.
+Definition ex_history : list attempt :=
+  [ex_good1; ex_wrong_attr; ex_good2; ex_bad_length; ex_good3].
+Definition ex_hash : bytes := sha512 ex_file.
+
+(* the stack after every call: 1, 1, 2, 2, 3 signatures; at the end exactly
+   the three good ones, newest first, as if the failing calls had not been made *)
+Example ex_history_result :
+  let b' := attempts toy_ok ex_hash empty_block ex_history in
+  map (fun n => lenN (ib_stack (attempts toy_ok ex_hash empty_block (firstn n ex_history))))
+      [0; 1; 2; 3; 4; 5]%nat = [0; 1; 1; 2; 2; 3] /\
+  map is_attrs (ib_stack b') = [ex_a3; ex_a2; ex_a1] /\
+  map (fun s => attr_pk (is_attrs s)) (ib_stack b') = [toy_pk2; toy_pk; toy_pk] /\
+  map op_of (accepted toy_ok ex_hash empty_block ex_history) = map op_of [ex_good1; ex_good2; ex_good3] /\
+  b' = attempts toy_ok ex_hash empty_block [ex_good1; ex_good2; ex_good3] /\
+  Forall (fun s => lenN (is_sig s) = 64) (ib_stack b') /\
+  match block_cbor b' with Ok bs => det_check bs = Accept | _ => False end.
+Proof. vm_compute. repeat split; repeat constructor. Qed.
+
+(* the two failing calls fail for the reason their names say, at the block
+   they were made on (one / two signatures), and change nothing *)
+Example ex_history_failures :
+  let b1 := attempts toy_ok ex_hash empty_block [ex_good1] in
+  let b2 := attempts toy_ok ex_hash empty_block [ex_good1; ex_wrong_attr; ex_good2] in
+  attr_pk (at_attrs ex_wrong_attr) <> at_pk ex_wrong_attr /\
+  try_sign toy_ok ex_hash b1 ex_wrong_attr = Err /\
+  attempt_step toy_ok ex_hash b1 ex_wrong_attr = b1 /\
+  attr_pk (at_attrs ex_bad_length) = at_pk ex_bad_length /\ lenN (at_pk ex_bad_length) <> 32 /\
+  (exists blk dtbs sg, block_cbor b2 = Ok blk /\
+     data_to_be_signed ex_hash blk (at_attrs ex_bad_length) = Ok dtbs /\
+     at_strat ex_bad_length dtbs = Ok sg /\ toy_ok (at_pk ex_bad_length) dtbs sg = true) /\
+  try_sign toy_ok ex_hash b2 ex_bad_length = Err /\
+  attempt_step toy_ok ex_hash b2 ex_bad_length = b2.
+Proof.
+  cbv zeta. split; [vm_compute; discriminate|]. split; [vm_compute; reflexivity|].
+  split; [vm_compute; reflexivity|]. split; [vm_compute; reflexivity|].
+  split; [vm_compute; discriminate|].
+  split; [|split; vm_compute; reflexivity].
+  do 3 eexists. split; [vm_compute; reflexivity|]. split; [vm_compute; reflexivity|].
+  split; vm_compute; reflexivity.
+Qed.
+
+(* the theorem applied: the final stack satisfies the invariant *)
+Example ex_history_valid :
+  Valid_self toy_ok ex_hash (ib_stack (attempts toy_ok ex_hash empty_block ex_history)).
+Proof. exact (proj1 (attempts_from_empty toy_ok ex_hash ex_history)). Qed.
+
+(* a non-empty starting block satisfying the invariant (hypothesis of
+   attempts_invariant / stack_invariant_self_from) *)
+Example ex_valid_self_start :
+  Valid_self toy_ok ex_hash (ib_stack (attempts toy_ok ex_hash empty_block [ex_good1])) /\
+  lenN (ib_stack (attempts toy_ok ex_hash empty_block [ex_good1])) = 1.
+Proof.
+  split; [exact (proj1 (attempts_from_empty toy_ok ex_hash [ex_good1]))|vm_compute; reflexivity].
+Qed.
+
+(* the name twice in the association list: the lookup takes the first entry;
+   the call fails either way (attribute test / attributes do not encode) *)
+Example ex_dup_name :
+  let strat := fun _ : bytes => Ok [1] in
+  let ed_ok := fun _ _ _ : bytes => true in
+  let pk := repeat 1 32 in let pk2 := repeat 2 32 in
+  attr_pk [(pk_attr_name, pk2); (pk_attr_name, pk)] = pk2 /\
+  sign_and_add strat ed_ok [] empty_block pk [(pk_attr_name, pk2); (pk_attr_name, pk)] = Err /\
+  attr_pk [(pk_attr_name, pk); (pk_attr_name, pk2)] = pk /\
+  attrs_cbor [(pk_attr_name, pk); (pk_attr_name, pk2)] = Err /\
+  sign_and_add strat ed_ok [] empty_block pk [(pk_attr_name, pk); (pk_attr_name, pk2)] = Err /\
+  (exists b', sign_and_add strat ed_ok [] empty_block pk [(pk_attr_name, pk)] = Ok b').
+Proof. exact IntegrityBlockSign.sign_and_add_dup_name_cases. Qed.
+
+(* hypotheses of the membership forms of the refusals *)
+Example ex_refusal_hyps :
+  In (pk_attr_name, toy_pk2) (at_attrs ex_wrong_attr) /\ toy_pk2 <> toy_pk /\
+  ~ In (pk_attr_name, toy_pk) (at_attrs ex_wrong_attr) /\ toy_pk <> [] /\
+  (forall v, ~ In (pk_attr_name, v) [(s2b "note", [1])]) /\
+  ~ NoDup (map fst [(s2b "n", [1]); (s2b "n", [2])]).
+Proof.
+  split; [left; reflexivity|]. split; [vm_compute; discriminate|].
+  split; [intros [E|[]]; vm_compute in E; discriminate|]. split; [vm_compute; discriminate|].
+  split; [intros v [E|[]]; vm_compute in E; discriminate|].
+  intros H. inversion H as [|x l Hn _]; subst. apply Hn. left. reflexivity.
+Qed.
 
 (* attributes in a different order give the same bytes; a duplicate or a
    non-UTF-8 name is refused *)
